@@ -28,9 +28,9 @@ CLAIM = dict(
     text="Machine-checked (Coq 8.16, axiom-free) for the model of ctx.rs/events.rs/refs.rs/driver.rs, for every script of 2..4 modules "
          "(any handler/task programs over log, send, schedule, sleep, shutdown, shutdow_and_restart_in, panic; any stage count, any "
          "injections): (1) between the record in which a module's shutdown request is consumed (Module::reset) and its restart event no "
-         "message handler, task step or timer completion of the module occurs, and no dispatched event in between holds any record of it "
-         "(messages to it are dropped, its wake-ups do nothing); (2) every call record of a dispatched event carries is_active = true "
-         "(except after a panic of the module's own callback in that event); (3) a record holds exactly one reset iff it holds a shutdown "
+         "message handler, task step or timer completion of the module occurs, and no start-up stage or dispatched event in between holds any record of it "
+         "(messages to it are dropped, its wake-ups do nothing); (2) every call record of the start-up sweep and of every dispatched event carries is_active = true "
+         "(except after a panic of the module's own callback in that record); (3) a record holds exactly one reset iff it holds a shutdown "
          "request, tear-down never resets; (4) a restart event happens only at exactly the requested time (last request of the event wins), "
          "once per request, every run completes and no requested restart is left over, and its start-up stages run once each, in order, at "
          "that time; (5) every task step is logged with the incarnation that spawned it and that equals the number of resets so far: "
@@ -42,9 +42,9 @@ CLAIM = dict(
          "drop guards on task futures) against the extracted model, plus a monitor that states (1)-(5) and the dropping of messages "
          "through gates of a down module on the implementation's own log.",
     note="Trusted: Coq kernel; extraction cross-checked in-Coq on a sample each run; harness/generator quality bounds the tie to the code. "
-         "Not modelled: that dropping the tokio runtime really cancels tasks (observed via drop guards and task logs). The start-up sweep "
-         "and the tear-down sweep call at_sim_start(stage >= 1) / at_sim_end on every module irrespective of is_active; those lifecycle "
-         "calls are not 'message handlers, tasks or timers' and are outside (1)-(2). 'Behaves like a freshly started module' is claimed in "
+         "Not modelled: that dropping the tokio runtime really cancels tasks (observed via drop guards and task logs). The tear-down sweep calls "
+         "at_sim_end on every module irrespective of is_active; that lifecycle call is not a 'message handler, task or timer' and is "
+         "outside (1)-(2) (the start-up sweep skips inactive modules since 1526470 and is covered). 'Behaves like a freshly started module' is claimed in "
          "the form (5) + (4): fresh tasks, stages replayed; a whole-trace comparison with a fresh module is not proved. Every run of the "
          "model terminates (proved: C09_run_terminates), so 'no restart left over' holds unconditionally.",
     technique="Coq: invariants over a step relation generating every world of the run (reset => down, down => inert), an interpreter invariant "
@@ -75,9 +75,9 @@ def check_lifecycle(d, rs):
         if m is not None:
             now = t if phase == "loop" else (0 if phase == "start" else recs[0][3])
             is_restart = phase == "loop" and recs[0][0] == R_START
-            if phase == "loop" and down[m] and not is_restart:
-                raise Bad("module %d was shut down at %s and not restarted, but the event at %d holds its records %s"
-                          % (m, reset_at[m], t, recs[:3]))
+            if phase != "end" and down[m] and not is_restart:
+                raise Bad("module %d was shut down at %s and not restarted, but the %s at %s holds its records %s"
+                          % (m, reset_at[m], "event" if phase == "loop" else "start-up sweep", now, recs[:3]))
             if is_restart:
                 if not down[m]:
                     raise Bad("restart event of module %d at %d although it is not shut down" % (m, t))
@@ -96,7 +96,7 @@ def check_lifecycle(d, rs):
                 if r[0] in CALLS:
                     if phase != "end" and r[3] != now:
                         raise Bad("callback record %s of an event at %d carries time %d" % (r, now, r[3]))
-                    if phase == "loop" and r[4] % 2 == 0 and not seen_panic:
+                    if phase != "end" and r[4] % 2 == 0 and not seen_panic:
                         raise Bad("callback %s ran at %d while is_active was false" % (r, now))
                 if r[0] in (R_MSG, R_TASK, R_TIMER) and down[m]:
                     raise Bad("module %d is shut down (since %s) but %s ran" % (m, reset_at[m], r))
